@@ -279,8 +279,9 @@ Plan gen_c18(uint64_t seed, int tier)
         }
         if (r.chance(1, 4))
         {
-          // ordinary statements below the flush level in between
-          int64_t lvl = r.range(2, 5);
+          // ordinary statements below the flush level in between (with flush level None every level is below it: a
+          // WARNING / ERROR / CRITICAL statement must then not flush, also not after a re-initialisation from another level)
+          int64_t lvl = flush_level == 10 ? r.range(2, 8) : r.range(2, std::min<int64_t>(5, flush_level - 1));
           // (site 4 = a dynamic-level statement: its effective level, not the call site's placeholder, decides)
           ops.push_back(Op{OP_LOG, lg, static_cast<int64_t>(r.below(5)), lvl, static_cast<int64_t>(r.next() >> 8),
                            static_cast<int64_t>(r.below(30)), 0});
